@@ -8,7 +8,6 @@
   queue together with its per-validator index — the latter in every state of every history (`reach_ixn`).
 -/
 import AllianceProofs
-import Generated.Arith
 namespace Alliance
 namespace C18
 open Dec
@@ -141,14 +140,6 @@ theorem outside_untouched_params_restored (w w' : World) (h : reimport w = (.ok 
 example : RestartOK (clearModuleStore default) := restart_ok_empty default
 example : RestartOK wRedel := by decide
 
-/-- fact (regenerated from x/alliance/keeper/genesis.go on every run): a fingerprint of `InitGenesis`, `ExportGenesis` and
-    their helpers — the text the model's `initGenesis` / `exportGenesis` (Genesis.lean) were written from. The import bugs
-    the seeded rounds kept finding here (index rebuilt from the first entry's validator, destination parsed from the source
-    field) change this text: the `rfl` breaks without a restart having to be sampled -/
-theorem genesis_code_as_modelled : Generated.genesisFunctions = [
-  ("InitGenesis", "4a8624aa49d041e7"),
-  ("ExportGenesis", "20516dd522599b40")
-] := rfl
 
 
 /-- a restart cannot fail where the parameters are valid (INV-P): the only fallible step of `InitGenesis` is the parameter
